@@ -74,6 +74,7 @@ func (p *Path) PC() string { return and(p.pc...) }
 
 type OblInst struct {
 	PC   string
+	PCs  []string
 	Goal string
 	Pos  string
 	Note string
@@ -131,11 +132,17 @@ type Exec struct {
 	oblCalls     bool // callee preconditions become obligations (code and lemma steps) rather than guards
 	lastVariadic []Value
 	subsStack    []map[string]*CExpr
+	closures      map[string]*closure
+	boundMethods  map[string]*boundMethod
+	heapPureCache map[string]int
+	recDefining   map[string]bool
+	qvarCounter   int
 }
 
 func NewExec(w *World, c *Ctx) *Exec {
 	return &Exec{w: w, c: c, obls: map[string]*Obligation{}, usedContract: map[string]bool{}, inlined: map[string]bool{},
-		observers: map[string]bool{}, havocked: map[string]bool{}}
+		observers: map[string]bool{}, havocked: map[string]bool{}, closures: map[string]*closure{}, boundMethods: map[string]*boundMethod{},
+		heapPureCache: map[string]int{}, recDefining: map[string]bool{}}
 }
 
 func (ex *Exec) note(format string, args ...any) {
@@ -152,11 +159,9 @@ func (ex *Exec) addObl(p *Path, name, kind, text, goal string, pos token.Pos, no
 		ex.obls[name] = o
 		ex.oblOrder = append(ex.oblOrder, name)
 	}
-	pc := p.PC()
-	if len(ex.guards) > 0 {
-		pc = and(pc, and(ex.guards...))
-	}
-	o.Insts = append(o.Insts, OblInst{PC: pc, Goal: goal, Pos: ex.w.pos(pos), Note: note})
+	pcs := append([]string(nil), p.pc...)
+	pcs = append(pcs, ex.guards...)
+	o.Insts = append(o.Insts, OblInst{PC: and(pcs...), PCs: pcs, Goal: goal, Pos: ex.w.pos(pos), Note: note})
 }
 
 // ---------------------------------------------------------------------------------------
@@ -1005,23 +1010,22 @@ func (ex *Exec) callIsHeapPure(call *ast.CallExpr) bool {
 	return false
 }
 
-var heapPureCache = map[string]int{}
 
 func (ex *Exec) bodyIsHeapPure(fi *FuncInfo, depth int) bool {
 	full := fi.Obj.FullName()
-	if r, ok := heapPureCache[full]; ok {
+	if r, ok := ex.heapPureCache[full]; ok {
 		return r == 1
 	}
 	if depth > 6 {
 		return false
 	}
-	heapPureCache[full] = 1 // assume pure for recursion
+	ex.heapPureCache[full] = 1 // assume pure for recursion
 	saveInfo := ex.info
 	ex.info = fi.Pkg.TypesInfo
 	_, hw := ex.assignedIn(fi.Decl.Body)
 	ex.info = saveInfo
 	if hw {
-		heapPureCache[full] = 0
+		ex.heapPureCache[full] = 0
 		return false
 	}
 	return true
